@@ -1178,6 +1178,24 @@ func (env *Env) call(x *ECall) (EV, error) {
 			return EV{}, fmt.Errorf("mkiface(tag, ref)")
 		}
 		return EV{V: IfaceV{tg, rf}}, nil
+	case "allocated":
+		// allocated(r): r is nil or (inside) an object that exists in this state (so that a callee which
+		// only writes objects it allocates itself cannot have touched it)
+		if len(args) == 1 {
+			var r Term
+			switch p := args[0].V.(type) {
+			case Term:
+				r = p
+			case IfaceV:
+				r = p.Ref
+			case StructRefV:
+				r = p.Ref
+			default:
+				return EV{}, fmt.Errorf("allocated(ref)")
+			}
+			return EV{V: Le(App(SInt, "root", r), env.st.Top)}, nil
+		}
+		return EV{}, fmt.Errorf("allocated(ref)")
 	case "mul64":
 		// mul64(a, b): a*b as a 64-bit signed machine multiplication (wraps on overflow)
 		if len(args) == 2 {
@@ -1341,7 +1359,18 @@ func (env *Env) macro(md *MacroDef, args []EV) (EV, error) {
 		n.pkg = p
 	}
 	for i, p := range md.Params {
-		n.bound[p.Name] = args[i]
+		a := args[i]
+		if a.T == nil && strings.HasPrefix(p.Type, "*") {
+			// an untyped reference (e.g. taken out of a ghost log) gets the declared pointer type
+			if _, isTerm := a.V.(Term); isTerm {
+				if te, perr := ParseExpr(p.Type); perr == nil {
+					if t, terr := n.typeArg(te); terr == nil {
+						a.T = t
+					}
+				}
+			}
+		}
+		n.bound[p.Name] = a
 	}
 	return n.eval(md.Body)
 }
